@@ -42,6 +42,10 @@ type xInput struct {
 	Residue    int    `json:"residue"`
 	Zeros      bool   `json:"zeros"`
 	Rootsigned bool   `json:"rootsigned"`
+	Alg2       string `json:"alg2"`
+	Kt2        string `json:"kt2"`
+	Dig2       string `json:"dig2"`
+	Detached2  bool   `json:"detached2"`
 }
 type xCfg struct {
 	Now int `json:"now"`
@@ -352,7 +356,17 @@ func (Xmlenc) Run(c *orch.Case) *orch.Outcome {
 		sp.SPKeyStore = &rotatingStore{first: memStore{spKey, certBytes}, then: memStore{fresh.Key.(*rsa.PrivateKey), fresh.DER}}
 	}
 
-	var second *etree.Element
+	var second, secondPlain *etree.Element
+	if in.Sub == "multi" {
+		in2 := in
+		in2.Alg, in2.Kt, in2.Dig, in2.Detached = in.Alg2, in.Kt2, in.Dig2, in.Detached2
+		secondPlain = ownSigned(b, w, world.Content("GA2"), true)
+		var err error
+		second, err = b.EncryptedAssertion(idp.Serialize(secondPlain, lay, rng), encOptsFor(&in2, rng, spKP.DER, &spKey.PublicKey))
+		if err != nil {
+			orch.Fatal("xmlenc: second: %v", err)
+		}
+	}
 	if in.Shape == "staleKey" {
 		// a second EncryptedAssertion: detached key naming (and wrapped to) a foreign certificate, payload under the
 		// FIRST assertion's session key -- decrypts only if state leaks from the first to the second
@@ -372,6 +386,8 @@ func (Xmlenc) Run(c *orch.Case) *orch.Outcome {
 		root.AddChild(kid)
 		if second != nil && kid == ee {
 			root.AddChild(second.Copy())
+		} else if secondPlain != nil {
+			root.AddChild(secondPlain.Copy())
 		}
 		if in.Rootsigned {
 			mustSign(root, idp.DefaultSig(w.IdpA.Key, w.IdpA.DER))
